@@ -529,6 +529,21 @@ def _writes_line(loop, lvar='line'):
 
 # ---------------------------------------------------------------------------------------------- text / csv
 def text_formats(m, run):
+    # the control point text / CSV formats are decided by a text round trip on shapes of the real classes (TX2: documented line and column
+    # order of the file, then the reader applied to that file); the rules that read the loop nest of the writer and the counters of the
+    # reader corroborate
+    from .. import skel_drivers as _sd
+    n0 = len(run.obs)
+    try:
+        _sd.tx2(m, run)
+    except AnalysisError as ex:
+        run.error(str(ex))
+    ok = len(run.obs) > n0 and all(o.ok for o in run.obs[n0:])
+    with run.corroborating(ok, 'TX2', rules=('TX1.row-column-order', 'LY1.canonical-stride', 'AX5.cross-axis-compare')):
+        _text_formats_syntactic(m, run)
+
+
+def _text_formats_syntactic(m, run):
     fe = m.func('_exchange.export_text_data')
     rl.ly1_canonical(m, run, [fe])
     ra.ax5_cross_axis_compare(m, run, [fe, m.func('compatibility._save_ctrlpts2d_file')])
